@@ -34,6 +34,7 @@ OBLIGATIONS = ["NiftyVerif.C01." + t for t in (
     "combineChain_sound", "chainMergeBlock_sound",
     "list_intertwine", "list_intertwine_rev", "signedSum_intertwine", "inv_intertwine", "adapter_io", "chain_io", "den_typed",
     "typed_scaling", "typed_mul", "tree_sound_typed",
+    "ReqE_eq_reqE", "mkSumU_list_sound", "mkChainU_list_sound", "build_list", "nary_core",
 )]
 RULE = ("random construction scripts (typed generator over 8 small domains, 14 leaves with independently known exact "
         "matrices, scaling/diagonal/partial-space diagonal/null/block-diagonal/sandwich/InversionEnabler, combined with "
@@ -420,11 +421,35 @@ def expected_matrix(W, script, mode):
         return None
 
 
+def divides_by_zero(e, under_inverse=False):
+    """does the script take `.inverse` of (an expression containing) a diagonal with an exact zero entry or a zero scaling?  The
+    code then computes with 1/0 = inf (`inf * 0`, `inf * (0+0j)` = nan depending on where diagonals are merged): documented as
+    the caller's responsibility, no matrix semantics - such scripts are not judged"""
+    if not isinstance(e, dict):
+        return False
+    op = e.get("op")
+    if under_inverse:
+        if op == "diag" and any(X.g(v) == X.ZERO for v in e["v"]):
+            return True
+        if op in ("scaling", "scale") and X.g(e["c"]) == X.ZERO:
+            return True
+    ui = under_inverse or op == "inverse"
+    for _, c in OW.children(e):
+        if divides_by_zero(c, ui):
+            return True
+    for x in (e.get("ents", []) or []) + (e.get("args", []) or []):
+        if isinstance(x, dict) and divides_by_zero(x, ui):
+            return True
+    return False
+
+
 def oracle(case):
     """The property on the real code only: a well-typed script must build; the result must advertise at least the modes
     its constituents provide; every advertised mode must act as the matrix expression (real and imaginary inputs)."""
     W = world()
     script = case["script"]
+    if divides_by_zero(script):
+        return None
     real, op = run_real(W, case)
     if not case.get("valid", True):
         if "error" not in real:
@@ -552,6 +577,10 @@ def compare_one(ctx, W, case, real, model):
     """canonical summaries of both sides; dense matrices compared numerically (class E up to float rounding)"""
     script = case["script"]
     nontrivial = "error" not in real and script["op"] not in ("leaf", "scaling", "diag", "null")
+    if divides_by_zero(script):
+        ctx.stat("skipped-inverse-of-zero-variance")
+        ctx.case(case, nontrivial=False)
+        return True
     if model.get("error") == "ZeroDivisionError":
         # the script inverts a zero scaling: no matrix semantics; the code raises or produces inf depending on whether the
         # factor is a Python or a NumPy float at that point (documented as the caller's responsibility) - not compared
